@@ -11,4 +11,6 @@ package endpoint
 //@   props C11
 //@   logged ehash
 //@   nomaprange Write
-//@   ensures hw.n >= old(hw.n) + 3 && hw.arg1[old(hw.n)] == bytesOf(e.URL) && hw.arg1[old(hw.n) + 1] == bytesOf(e.Method)
+//@   ensures shanew.n > old(shanew.n)
+//@   ensures (exists k int :: old(hw.n) <= k && k < hw.n && hw.arg0[k] == shanew.ret0[old(shanew.n)] && hw.arg1[k] == bytesOf(e.URL))
+//@   ensures (exists k int :: old(hw.n) <= k && k < hw.n && hw.arg0[k] == shanew.ret0[old(shanew.n)] && hw.arg1[k] == bytesOf(e.Method))
